@@ -12,7 +12,7 @@ Proof.
   destruct (c_ask c) as [b|].
   - rewrite (json_ask json (fun v => v) (fun v => v) (fun v => eq_refl)). apply eqb_reflx.
   - rewrite (json_select json (fun v => v) (fun v => v) (fun v => eq_refl)) by auto.
-    rewrite list_eqb_refl by apply str_eqb_refl. simpl. apply rows_ok_bound_of. auto.
+    unfold spec_select. rewrite list_eqb_refl by apply str_eqb_refl. simpl. apply rows_ok_bound_of. auto.
 Qed.
 
 Lemma cell_bound : forall v r, cell v r = cell v r. Proof. reflexivity. Qed.
@@ -24,10 +24,9 @@ Proof.
   destruct (c_ask c); [discriminate|]. apply csv_ok.
 Qed.
 
-Theorem spec_ok_model : forall c,
-  wf c = true -> kf c = 0 -> spec_ok c (model_obs c) = true.
+Theorem spec_ok_model : forall c, wf c = true -> spec_ok c (model_obs c) = true.
 Proof.
-  intros c Hwf Hkf. destruct (c_fmt c) eqn:E.
+  intros c Hwf. destruct (c_fmt c) eqn:E.
   - apply json_ok; auto.
   - apply xml_ok; auto.
   - apply tsv_ok; auto.
@@ -61,17 +60,27 @@ Proof.
 Qed.
 
 (* for the three parsed formats: the reader's answer has the variables of the result in their
-   order, as many rows in the same order, and row by row every variable bound to the same term or unbound *)
+   order, as many rows in the same order, and row by row every variable bound to the same term or
+   unbound; for XML this is demanded of every expressible result *)
 Theorem spec_ok_select_reading : forall c vs ps,
-  c_fmt c <> FCsv -> c_ask c = None ->
+  c_fmt c <> FCsv -> c_ask c = None -> (c_fmt c = FXml -> xml_expressible c = true) ->
   (spec_ok c (OSel vs ps) = true <-> vs = c_vars c /\ Forall2 (row_agrees (c_vars c)) (c_rows c) ps).
 Proof.
-  intros c vs ps Hf Ha. unfold spec_ok. rewrite Ha.
-  assert (E : (list_eqb str_eqb vs (c_vars c) && rows_ok (c_vars c) (c_rows c) ps = true)
+  intros c vs ps Hf Ha Hx. unfold spec_ok. rewrite Ha.
+  assert (E : (spec_select c (OSel vs ps) = true)
               <-> vs = c_vars c /\ Forall2 (row_agrees (c_vars c)) (c_rows c) ps).
-  { rewrite andb_true_iff, rows_ok_reflect.
+  { unfold spec_select. rewrite andb_true_iff, rows_ok_reflect.
     destruct (@list_eqb_spec _ _ str_eqb_spec vs (c_vars c)); split; intros [H1 H2]; split; auto; congruence. }
-  destruct (c_fmt c); try exact E. congruence.
+  destruct (c_fmt c); try exact E; [|congruence]. rewrite Hx by reflexivity. exact E.
+Qed.
+
+(* an XML result that XML 1.0 cannot express must be refused by the serialiser *)
+Theorem spec_ok_refusal_reading : forall c o,
+  c_fmt c = FXml -> c_ask c = None -> xml_expressible c = false ->
+  (spec_ok c o = true <-> o = ORefused).
+Proof.
+  intros c o Hf Ha Hx. unfold spec_ok. rewrite Hf, Ha, Hx.
+  destruct o; split; intro H; try discriminate; reflexivity.
 Qed.
 
 Theorem spec_ok_ask_reading : forall c b o,
@@ -79,7 +88,7 @@ Theorem spec_ok_ask_reading : forall c b o,
 Proof.
   intros c b o Hf Ha. unfold spec_ok. rewrite Ha.
   assert (E : match o with OAsk b' => Bool.eqb b b' | _ => false end = true <-> o = OAsk b).
-  { destruct o as [|b'| |]; split; intro H; try discriminate.
+  { destruct o as [| |b'| |]; split; intro H; try discriminate.
     - apply eqb_prop in H. congruence.
     - inversion H. apply eqb_reflx. }
   destruct (c_fmt c); try exact E. congruence.
@@ -90,7 +99,7 @@ Theorem spec_ok_csv_reading : forall c o,
   (spec_ok c o = true <->
    o = OCells (c_vars c :: map (fun r => map (fun v => csv_value (cell v r)) (c_vars c)) (c_rows c))).
 Proof.
-  intros c o Hf. unfold spec_ok. rewrite Hf. destruct o as [| | |m]; split; intro H; try discriminate.
+  intros c o Hf. unfold spec_ok. rewrite Hf. destruct o as [| | | |m]; split; intro H; try discriminate.
   - destruct (@list_eqb_spec _ _ (@list_eqb_spec _ _ str_eqb_spec) m
                 (c_vars c :: map (fun r => map (fun v => csv_value (cell v r)) (c_vars c)) (c_rows c))); congruence.
   - inversion H. apply list_eqb_refl. intro. apply list_eqb_refl. apply str_eqb_refl.
@@ -105,24 +114,38 @@ Definition iri_a : term := IRI (s2l "http://e/a"%string).
 Definition mk (f : fmt) (rows : list row) (st : style) : case :=
   {| c_fmt := f; c_ask := None; c_vars := [vx]; c_rows := rows; c_style := st; c_bytes := true |}.
 
-(* accepted since the repairs of F11a, F11d (empty IRI) and F11g *)
+(* all of these were violations once; they are accepted since the repairs (notes/C16.md) *)
 Definition w_F11a := mk FTsv [[(vx, Some iri_a)]; []; [(vx, Some iri_a)]] st0.
 Definition w_F11a2 : case :=
   {| c_fmt := FTsv; c_ask := None; c_vars := [vx; [121]]; c_rows := [[(vx, Some iri_a)]; []; [([121], Some iri_a)]];
      c_style := st0; c_bytes := true |}.
+Definition w_F11b := mk FXml [[(vx, Some (Lit [97; 1; 98] None None))]] st0.
+Definition w_F11c := mk FXml [[(vx, Some (Lit [97; 13; 98; 13; 10] None None))]] st0.
 Definition w_F11d_iri := mk FXml [[(vx, Some (IRI []))]] st0.
+Definition w_F11d := mk FXml [[(vx, Some (Lit [118] (Some []) None))]] st0.
+Definition w_F11e := mk FTsv [[(vx, Some (Lit [97; 8232; 98] None None))]] st0.
+Definition w_F11f := mk FTsv [[(vx, Some (Lit [105; 116; 39; 115] None None))]]
+                        {| st_sq := false; st_esc_all := false; st_bare := false; st_cross := true |}.
 Definition w_F11g := mk FXml [[(vx, Some (Lit [48] (Some xsd_integer) None))]] st0.
+Definition w_F11h : case :=
+  {| c_fmt := FTsv; c_ask := None; c_vars := [vx; [121; 5760]];
+     c_rows := [[(vx, Some iri_a); ([121; 5760], Some iri_a)]]; c_style := st0; c_bytes := true |}.
 
 Lemma repaired :
-  (wf w_F11a = true /\ kf w_F11a = 0 /\ model_obs w_F11a = OSel [vx] [[(vx, iri_a)]; []; [(vx, iri_a)]])
-  /\ (wf w_F11a2 = true /\ kf w_F11a2 = 0
-      /\ model_obs w_F11a2 = OSel [vx; [121]] [[(vx, iri_a)]; []; [([121], iri_a)]])
-  /\ (wf w_F11d_iri = true /\ kf w_F11d_iri = 0 /\ model_obs w_F11d_iri = OSel [vx] [[(vx, IRI [])]])
-  /\ (wf w_F11g = true /\ kf w_F11g = 0
-      /\ model_obs w_F11g = OSel [vx] [[(vx, Lit [48] (Some xsd_integer) None)]]).
+  (wf w_F11a = true /\ model_obs w_F11a = OSel [vx] [[(vx, iri_a)]; []; [(vx, iri_a)]])
+  /\ (wf w_F11a2 = true /\ model_obs w_F11a2 = OSel [vx; [121]] [[(vx, iri_a)]; []; [([121], iri_a)]])
+  /\ (wf w_F11b = true /\ xml_expressible w_F11b = false /\ model_obs w_F11b = ORefused)
+  /\ (wf w_F11c = true /\ model_obs w_F11c = OSel [vx] [[(vx, Lit [97; 13; 98; 13; 10] None None)]])
+  /\ (wf w_F11d_iri = true /\ model_obs w_F11d_iri = OSel [vx] [[(vx, IRI [])]])
+  /\ (wf w_F11d = true /\ model_obs w_F11d = OSel [vx] [[(vx, Lit [118] (Some []) None)]])
+  /\ (wf w_F11e = true /\ model_obs w_F11e = OSel [vx] [[(vx, Lit [97; 8232; 98] None None)]])
+  /\ (wf w_F11f = true /\ model_obs w_F11f = OSel [vx] [[(vx, Lit [105; 116; 39; 115] None None)]])
+  /\ (wf w_F11g = true /\ model_obs w_F11g = OSel [vx] [[(vx, Lit [48] (Some xsd_integer) None)]])
+  /\ (wf w_F11h = true /\ model_obs w_F11h = OSel [vx; [121; 5760]] [[(vx, iri_a); ([121; 5760], iri_a)]]).
 Proof. vm_compute. repeat split. Qed.
 
-(* the row loop as it was before the repair drops the row with nothing bound *)
+(* historical behaviour kept in the model: the row loop before 40b19e31 drops the row with nothing
+   bound; line splitting as codecs' readline did it before e84c9b4e cuts the row of w_F11e in two *)
 Lemma tsv_rows_prefix_refuted :
   tsv_rows_prefix [vx] (split_lines true [] (flat_map (fun r => render_row st0 [vx] r ++ [10]) (c_rows w_F11a)))
   = Some [[(vx, iri_a)]; [(vx, iri_a)]]
@@ -130,22 +153,7 @@ Lemma tsv_rows_prefix_refuted :
     = Some [[(vx, iri_a)]; []; [(vx, iri_a)]].
 Proof. vm_compute. split; reflexivity. Qed.
 
-Definition w_F11b := mk FXml [[(vx, Some (Lit [97; 1; 98] None None))]] st0.
-Definition w_F11c := mk FXml [[(vx, Some (Lit [97; 13; 98] None None))]] st0.
-Definition w_F11d := mk FXml [[(vx, Some (Lit [118] (Some []) None))]] st0.
-Definition w_F11e := mk FTsv [[(vx, Some (Lit [97; 8232; 98] None None))]] st0.
-Definition w_F11f := mk FTsv [[(vx, Some (Lit [105; 116; 39; 115] None None))]]
-                        {| st_sq := false; st_esc_all := false; st_bare := false; st_cross := true |}.
-Definition w_F11h : case :=
-  {| c_fmt := FTsv; c_ask := None; c_vars := [vx; [121; 5760]];
-     c_rows := [[(vx, Some iri_a); ([121; 5760], Some iri_a)]]; c_style := st0; c_bytes := true |}.
-
-Lemma witnesses :
-  (wf w_F11b = true /\ kf w_F11b = 2 /\ model_obs w_F11b = OErr)
-  /\ (wf w_F11c = true /\ kf w_F11c = 3 /\ model_obs w_F11c = OSel [vx] [[(vx, Lit [97; 10; 98] None None)]])
-  /\ (wf w_F11d = true /\ kf w_F11d = 4 /\ model_obs w_F11d = OSel [vx] [[(vx, Lit [118] None None)]])
-  /\ (wf w_F11e = true /\ kf w_F11e = 5 /\ model_obs w_F11e = OErr)
-  /\ (wf w_F11f = true /\ kf w_F11f = 6 /\ model_obs w_F11f = OErr)
-  /\ (wf w_F11h = true /\ kf w_F11h = 1
-      /\ model_obs w_F11h = OSel [vx; [121]] [[(vx, iri_a); ([121], iri_a)]]).
-Proof. vm_compute. repeat split. Qed.
+Lemma split_lines_prefix_refuted :
+  List.length (split_lines true [] (render_doc st0 [vx] (c_rows w_F11e))) = 3%nat
+  /\ List.length (split_lines false [] (render_doc st0 [vx] (c_rows w_F11e))) = 2%nat.
+Proof. vm_compute. split; reflexivity. Qed.
